@@ -1,5 +1,6 @@
 """GC / ownership group: GC-BARRIER, GC-ALLOC, GC-ROOTS, GC-CHILDREN, GC-TERMINATION, GC-ATOMIC, GC-SWEEP, OWN-LEDGER, CH-*, SPAWN-COPY."""
 from lib import synq as q
+from lib.inline import walk_inl as W
 from lib.core import rule
 from lib.vmsig import is_operand_derived, sshow, subterms
 from rules.vm_ops import VM, _arms
@@ -143,7 +144,7 @@ def gc_alloc(ctx, r):
         for f in impl["items"]:
             if f["k"] != "Fn":
                 continue
-            hdr = [x for x in q.walk(f["body"]) if x["k"] == "Struct" and q.last_seg(x["p"]) == "ObjectHeader"]
+            hdr = [x for x in W(f["body"]) if x["k"] == "Struct" and q.last_seg(x["p"]) == "ObjectHeader"]
             if not hdr:
                 continue
             takes_vm = any("VmGreenThread" in p.get("ty", "") for p in f["params"])
@@ -153,7 +154,7 @@ def gc_alloc(ctx, r):
             key = f"vm.rs:{ty}::{f['name']}"
             # (1) colour: evaluate the `visited` expression in each collector state
             vis = next((fl["e"] for fl in hdr[0]["fields"] if fl["name"] == "visited"), None)
-            lets = {b: x["init"] for x in q.walk(f["body"]) if x["k"] == "Local" and x.get("init") is not None for b in q.pat_bindings(x["pat"])}
+            lets = {b: x["init"] for x in W(f["body"]) if x["k"] == "Local" and x.get("init") is not None for b in q.pat_bindings(x["pat"])}
             try:
                 tbl = {st: state_eval(vis, st, lets) for st in GC_STATES} if vis is not None else None
             except ValueError as e:
@@ -165,12 +166,12 @@ def gc_alloc(ctx, r):
             nogc = next((q.show(fl["e"]) for fl in hdr[0]["fields"] if fl["name"] == "no_gc"), None)
             r.ob(nogc == "false", key + ":no_gc", VM, f["l"], f"{ty}::{f['name']}: a thread-heap object must not be exempt from collection (no_gc = {nogc})")
             # (2) registered
-            reg = any(x["k"] == "MethodCall" and x["m"] == "push" and q.show(x["recv"]).endswith(".heap_list") for x in q.walk(f["body"]))
+            reg = any(x["k"] == "MethodCall" and x["m"] == "push" and q.show(x["recv"]).endswith(".heap_list") for x in W(f["body"]))
             r.ob(reg, key + ":not-registered", VM, f["l"], f"{ty}::{f['name']}: the object is not pushed to heap_list: it is never swept nor freed on drop")
             # (3) shaded exactly while marking: evaluate the guard of the gray-stack push in each collector state
             shade_tbl = None
-            for x in q.walk(f["body"]):
-                if x["k"] == "If" and any(y["k"] == "MethodCall" and y["m"] == "push" and q.show(y["recv"]).endswith(".gray_stack") for y in q.walk(x["t"])):
+            for x in W(f["body"]):
+                if x["k"] == "If" and any(y["k"] == "MethodCall" and y["m"] == "push" and q.show(y["recv"]).endswith(".gray_stack") for y in W(x["t"])):
                     try:
                         shade_tbl = {st: state_eval(x["c"], st, lets) for st in GC_STATES}
                     except ValueError as e:
@@ -180,7 +181,7 @@ def gc_alloc(ctx, r):
                 r.ob(shade_tbl == {"Idle": False, "Marking": True, "Sweeping": False}, key + ":not-shaded", VM, f["l"],
                      f"{ty}::{f['name']}: an object allocated black during marking must be pushed on the gray stack (exactly then) so its unbarriered initial fields are scanned; the push happens in states {shade_tbl}")
             # (4) accounting
-            acc = {q.show(x["a"]).split(".")[-1] for x in q.walk(f["body"]) if x["k"] == "Binary" and x["op"] == "+="}
+            acc = {q.show(x["a"]).split(".")[-1] for x in W(f["body"]) if x["k"] == "Binary" and x["op"] == "+="}
             r.ob({"heap_size", "gc_debt"} <= acc, key + ":accounting", VM, f["l"], f"{ty}::{f['name']}: must add the object's size to heap_size and gc_debt (adds to {sorted(acc)})", sample=f"{ty}::{f['name']}: registered, shaded, accounted")
     r.count("thread-heap allocators", n, 5, VM)
 
@@ -239,7 +240,7 @@ def gc_children(ctx, r):
         r.missing("process_gray", VM)
         return
     arms = {}
-    for m in q.walk(pg["body"]):
+    for m in W(pg["body"]):
         if m["k"] == "Match" and any(h.startswith("ObjectKind::") for a in m["arms"] for h in q.pat_heads(a["pat"])):
             for a in m["arms"]:
                 for h in q.pat_heads(a["pat"]):
@@ -256,24 +257,24 @@ def gc_children(ctx, r):
             if fl["name"] == "header" or not holds_values(items, fl["ty"]):
                 continue
             n += 1
-            used = any(x["k"] == "Field" and x["f"] == fl["name"] for x in q.walk(arm["body"]))
-            marks = any(x["k"] == "Call" and q.show(x["f"]).endswith("mark") for x in q.walk(arm["body"]))
+            used = any(x["k"] == "Field" and x["f"] == fl["name"] for x in W(arm["body"]))
+            marks = any(x["k"] == "Call" and q.show(x["f"]).endswith("mark") for x in W(arm["body"]))
             r.ob(used and marks, f"vm.rs:process_gray:{kind}:{fl['name']}:not-marked", VM, arm["l"],
                  f"process_gray: {ty}.{fl['name']} ({fl['ty']}) is not marked when an object of kind {kind} is scanned", sample=f"process_gray {kind}: marks .{fl['name']}")
             if any(c in t for c in ("Vec<", "VecDeque<")):
                 # a collection field: the loop that marks must range over the whole collection, not a partial view of it
                 whole = {f"obj.{fl['name']}", f"&obj.{fl['name']}", f"obj.{fl['name']}.iter()"}
-                guards = {b for x in q.walk(arm["body"]) if x["k"] == "Local" and x.get("init") is not None and f"obj.{fl['name']}" in q.show(x["init"]) and q.show(x["init"]).endswith(".lock().unwrap()") for b in q.pat_bindings(x["pat"])}
+                guards = {b for x in W(arm["body"]) if x["k"] == "Local" and x.get("init") is not None and f"obj.{fl['name']}" in q.show(x["init"]) and q.show(x["init"]).endswith(".lock().unwrap()") for b in q.pat_bindings(x["pat"])}
                 for gname in guards:
                     whole |= {gname, "&" + gname, gname + ".iter()", "&*" + gname}
-                loops = [x for x in q.walk(arm["body"]) if x["k"] == "For" and any(y["k"] == "Call" and q.show(y["f"]).endswith("mark") for y in q.walk(x["body"]))]
+                loops = [x for x in W(arm["body"]) if x["k"] == "For" and any(y["k"] == "Call" and q.show(y["f"]).endswith("mark") for y in W(x["body"]))]
                 srcs = [q.show(x["e"]).replace(" ", "") for x in loops]
                 r.ob(bool(loops) and all(s_ in whole for s_ in srcs), f"vm.rs:process_gray:{kind}:{fl['name']}:partially-marked", VM, arm["l"],
                      f"process_gray: the elements of {ty}.{fl['name']} are marked by iterating `{srcs}`; the whole collection must be traversed (a partial view such as one slice of a ring buffer leaves reachable elements white)",
                      sample=f"process_gray {kind}: every element of .{fl['name']} ({srcs})")
         if ty == "StructObject":
             n += 1
-            r.ob(any(x["k"] == "MethodCall" and x["m"] == "get_fields" for x in q.walk(arm["body"])) and any(x["k"] == "Call" and q.show(x["f"]).endswith("mark") for x in q.walk(arm["body"])),
+            r.ob(any(x["k"] == "MethodCall" and x["m"] == "get_fields" for x in W(arm["body"])) and any(x["k"] == "Call" and q.show(x["f"]).endswith("mark") for x in W(arm["body"])),
                  "vm.rs:process_gray:Struct:fields-not-marked", VM, arm["l"], "process_gray: the trailing fields of a StructObject are not marked", sample="process_gray Struct: marks get_fields()")
     r.count("Value-typed payload fields", n, 3, VM)
     # deep_copy: total over ValueTag, recursive on payloads, channel shares the queue
@@ -513,7 +514,7 @@ def own_ledger(ctx, r):
             if not raw:
                 continue
             n += 1
-            regs = {q.show(x["recv"]).split(".")[-1] for x in q.walk(f["body"]) if x["k"] == "MethodCall" and x["m"] == "push" and q.show(x["recv"]).split(".")[-1] in registries}
+            regs = {q.show(x["recv"]).split(".")[-1] for x in W(f["body"]) if x["k"] == "MethodCall" and x["m"] == "push" and q.show(x["recv"]).split(".")[-1] in registries}
             where = f"{ty}::{f['name']}"
             if not regs:
                 # returned to a caller that must register it
@@ -699,7 +700,18 @@ def heap_acct(ctx, r):
                                 adj.append(y)
                     ok = False
                     detail = f"found before={sorted(bvars)} after={sorted(avars)} adjustments={[q.show(y['b']) for y in adj]}"
+                    def resolved(e):
+                        # a delta hoisted into a local: `let grown = (after - before) * unit; heap_size += grown`
+                        while e["k"] == "Paren":
+                            e = e["e"]
+                        if e["k"] == "Path":
+                            for s_ in stmts:
+                                if s_["k"] == "Local" and s_.get("init") is not None and e["p"] in q.pat_bindings(s_["pat"]):
+                                    return s_["init"]
+                        return e
+
                     for y in adj:
+                        y = dict(y, b=resolved(y["b"]))
                         for d in q.walk(y["b"]):
                             if d["k"] == "Binary" and d["op"] == "-" and d["a"]["k"] == "Path" and d["b"]["k"] == "Path" and d["a"]["p"] in avars and d["b"]["p"] in bvars:
                                 # (after - before) * factor, nothing else
